@@ -193,7 +193,223 @@ class Ref:
             return self.compile_leaf(b, [b["crossing"]], "weight", "equal preamble")
         if t == "multi":
             return self.compile_leaf(b, b["crossings"], b["mode"], b["alignment"])
+        if t == "repeat":
+            if any(c["kind"] == "exclude" for c in b["constraints"]):
+                raise Unsupported("Exclude in Repeat constraints (documented restriction)")
+            return self.compile_merge([b["block"]], b["constraints"], "repeat", "equal preamble")
+        if t == "merge":
+            return self.compile_merge(b["blocks"], b["constraints"], b["mode"], b.get("alignment"))
+        if t == "nest":
+            return self.compile_nest(b)
         raise Unsupported("block type %s" % t)
+
+    # ------------------------------------------------------------------ combinators (documentation: main.rst Merge / Repeat / Nest)
+    COUNT_KINDS = ("exactly_k", "atleast", "exactly_row")
+
+    def compile_merge(self, blocks, cs, mode, alignment):
+        for x in blocks:
+            if x["type"] not in ("cross", "multi"):
+                raise Unsupported("Merge/Repeat over a combinator block")
+        subs = []
+        for x in blocks:
+            if x["type"] == "cross":
+                subs.append((x, self.compile_leaf(x, [x["crossing"]], "weight", "equal preamble"), "equal preamble"))
+            else:
+                subs.append((x, self.compile_leaf(x, x["crossings"], x["mode"], x["alignment"]), x["alignment"]))
+        if alignment is None:
+            alignment = subs[0][2]
+        design = [n for n in self.order if any(n in x["design"] for x, _, _ in subs)]
+        C = {"design": design, "unsat": False, "unspecified_T": False, "sustain": {}, "crossings": [], "checks": [], "mult": []}
+        if any(c["unspecified_T"] for _, c, _ in subs):
+            C["unsat"] = C["unspecified_T"] = True
+            C["T"] = None
+            for _, c, _ in subs:
+                for a in ("rcc-with-removal", "empty-crossing", "all-levels-excluded"):
+                    if a in self.ambiguous:
+                        pass
+            return C
+        crossed_sets = [set(i["factors"]) for _, c, _ in subs for i in c["crossings"]]
+        for a in range(len(crossed_sets)):
+            for b2 in range(a + 1, len(crossed_sets)):
+                if len(subs) > 1 and crossed_sets[a] & crossed_sets[b2]:
+                    self.amb("merge-overlapping-crossings")
+        self._note_cross_member_excludes([x for x, _, _ in subs], cs)
+        infos = []
+        for x, c, _ in subs:
+            own = [i for i in c["crossings"]]
+            if own and c["T"] != max(i["p"] + i["S"] for i in own):
+                self.amb("partial-inner")          # the member block is itself scaled by MinimumTrials
+            if not own and c["T"] != 1:
+                self.amb("partial-inner")
+            for i in own:
+                j = dict(i)
+                infos.append(j)
+        mins = [c["k"] for c in cs if c["kind"] == "min"]
+        T_members = [c["T"] for _, c, _ in subs]
+        if infos:
+            ps = {i["p"] for i in infos}
+            if alignment == "post preamble":
+                P = max(ps)
+                for i in infos:
+                    i["start"] = P
+            else:
+                if alignment == "equal preamble" and len(ps) > 1:
+                    raise Unsupported("equal preamble with different preambles (constructor must refuse)")
+                for i in infos:
+                    i["start"] = i["p"]
+        T = max(T_members + mins + [1])
+        if infos:
+            T = max(T, max(i["start"] + i["S"] for i in infos))
+        C["T"] = T
+        for i in infos:
+            n = T - i["start"]
+            if mode == "repeat":
+                i["w"], i["chunk"] = 1, i["S"]
+            else:
+                i["w"] = -(-n // i["S"])
+                i["chunk"] = i["S"] * i["w"]
+                if mode == "equal" and i["w"] != 1:
+                    raise Unsupported("equal mode with unequal sizes (constructor must refuse)")
+            i["sustain"] = 1
+            C["crossings"].append(i)
+        # member-block constraints: once per repetition of that block (window includes the preceding preamble trials)
+        for x, c, _ in subs:
+            L = c["T"]
+            pcs = {i["p"] for i in c["crossings"]}
+            p = max(pcs) if pcs else 0
+            if len(pcs) > 1 and c["checks"]:
+                self.amb("member-constraints-with-several-preambles")
+            if alignment == "post preamble" and infos and p != max(i["p"] for i in infos) and c["checks"]:
+                self.amb("member-constraints-under-post-preamble")
+            step = max(1, L - p)
+            windows = []
+            lo = 0
+            while lo < T - p or not windows:
+                windows.append((lo, min(T, lo + L)))
+                lo += step
+                if lo >= T:
+                    break
+            for con, _w in c["checks"]:
+                if con["kind"] in ("sequential", "latin"):
+                    self.amb("order-constraint-in-member-block")
+                tf = con.get("factor")
+                if tf in self.derived and self.is_complex(tf) and self.start[tf] > p and len(windows) > 1 and con["kind"] != "exclude":
+                    # in later repetitions the factor has a level at the repetition's first trials (the previous repetition
+                    # serves as its preamble) although the block on its own starts it later: which trials the constraint sees is open
+                    self.amb("member-constraint-on-late-starting-factor")
+                if windows[-1][1] - windows[-1][0] < L and (con["kind"] in self.COUNT_KINDS or con["kind"] == "pin"):
+                    self.amb("truncated-window")
+                C["checks"].append((con, list(windows)))
+        for con in cs:
+            if con["kind"] == "min":
+                continue
+            C["checks"].append((con, [(0, T)]))
+        self.note_constraint_ambiguities(C, cs)
+        self._multiplicities(C)
+        return C
+
+    def _note_cross_member_excludes(self, leaves, cs):
+        """an Exclude given to one member block (or to the combinator) that would change ANOTHER member's crossing: the
+        documentation scopes block constraints to the block, the library merges all constraints"""
+        all_ex = [c for x in leaves for c in x["constraints"] if c["kind"] == "exclude"] + [c for c in cs if c["kind"] == "exclude"]
+        if not all_ex:
+            return
+        for x in leaves:
+            own = [c for c in x["constraints"] if c["kind"] == "exclude"]
+            if len(own) == len(all_ex):
+                continue
+            for cr in ([x["crossing"]] if x["type"] == "cross" else x["crossings"]):
+                if not cr:
+                    continue
+                saved = list(self.ambiguous)
+                a = self.crossing_info(cr, x["design"], own, x["rcc"])
+                b = self.crossing_info(cr, x["design"], all_ex, x["rcc"])
+                self.ambiguous = saved
+                if a["poss"] != b["poss"]:
+                    self.amb("exclude-across-members")
+                    return
+
+    def _multiplicities(self, C):
+        infos = C["crossings"]
+        in_all = set(self.order)
+        for i in infos:
+            in_all &= set(i["factors"])
+        if not infos:
+            in_all = set()
+        in_some = set()
+        for i in infos:
+            in_some |= set(i["factors"])
+        for n in C["design"]:
+            if n in self.basic and n not in in_all and any(l[1] > 1 for l in self.basic[n]["levels"]):
+                C["mult"].append(n)
+                if n in in_some:
+                    self.amb("weighted-partially-crossed")
+
+    def compile_nest(self, b):
+        def comp(x):
+            if x["type"] == "cross":
+                return self.compile_leaf(x, [x["crossing"]], "weight", "equal preamble")
+            if x["type"] == "multi":
+                return self.compile_leaf(x, x["crossings"], x["mode"], x["alignment"])
+            if x["type"] == "nest":
+                return self.compile_nest(x)
+            raise Unsupported("Nest over Repeat/Merge")
+        Co, Ci = comp(b["outer"]), comp(b["inner"])
+        cs = b["constraints"]
+        leaves = [x for x in S.iter_blocks(b) if x["type"] in ("cross", "multi")]
+        self._note_cross_member_excludes(leaves, cs)
+        design = [n for n in self.order if n in Co["design"] or n in Ci["design"]]
+        C = {"design": design, "unsat": False, "unspecified_T": False, "sustain": {}, "crossings": [], "checks": [], "mult": []}
+        if Co["unspecified_T"] or Ci["unspecified_T"]:
+            C["unsat"] = C["unspecified_T"] = True
+            C["T"] = None
+            return C
+        if any(i["start"] > 0 for i in Co["crossings"] + Ci["crossings"]):
+            raise Unsupported("Nest with preamble trials")
+        oc = set(f for i in Co["crossings"] for f in i["factors"])
+        ic = set(f for i in Ci["crossings"] for f in i["factors"])
+        if oc & ic:
+            raise Unsupported("factor crossed in both outer and inner block (constructor must refuse)")
+        if any(f in self.derived and self.is_complex(f) for f in oc):
+            self.amb("derived-outer-in-nest")
+        To, Ti = Co["T"], Ci["T"]
+        for i in Ci["crossings"]:
+            if Ti % (i["chunk"] * i.get("sustain", 1)) != 0:
+                self.amb("partial-inner")
+        mins = [c["k"] for c in cs if c["kind"] == "min"]
+        T = To * Ti
+        if any(m > T for m in mins):
+            self.amb("minimum-trials-on-nest")
+        C["T"] = T
+        for i in Co["crossings"]:
+            j = dict(i)
+            j["sustain"] = i.get("sustain", 1) * Ti
+            if i.get("tile"):
+                j["tile"] = i["tile"] * Ti
+            C["crossings"].append(j)
+        for i in Ci["crossings"]:
+            j = dict(i)
+            j["sustain"] = i.get("sustain", 1)
+            j["tile"] = i.get("tile", Ti)        # the crossing restarts with every inner run
+            C["crossings"].append(j)
+        for con, windows in Co["checks"]:
+            if con["kind"] != "exclude":
+                self.amb("outer-constraint-in-nest")
+            C["checks"].append((con, [(lo * Ti, hi * Ti) for lo, hi in windows]))
+        def targets(con):
+            return set(con.get("factors") or [con.get("factor")])
+        for con, windows in Ci["checks"]:
+            if con["kind"] != "exclude" and targets(con) & oc:
+                self.amb("constraint-on-sustained-factor")      # per trial or per group?  the documentation does not say
+            C["checks"].append((con, [(g * Ti + lo, g * Ti + hi) for g in range(To) for lo, hi in windows]))
+        for con in cs:
+            if con["kind"] != "min":
+                if con["kind"] != "exclude" and targets(con) & oc:
+                    self.amb("constraint-on-sustained-factor")
+                C["checks"].append((con, [(0, T)]))
+        self.note_constraint_ambiguities(C, cs)
+        self._multiplicities(C)
+        return C
 
     def compile_leaf(self, b, crossings, mode, alignment):
         cons = b["constraints"]
@@ -417,25 +633,41 @@ class Ref:
         return self.applicable(f, t // sus)
 
     def check_crossings(self, seq, upto=None):
+        """crossing requirement; `upto` = number of trials filled so far (prefix pruning during enumeration).
+        A crossing with sustain s reads one combination per group of s trials and requires it constant in the group;
+        a crossing with `tile` n restarts its chunks every n trials (inner block of a Nest)."""
         C = self.C
-        T = C["T"] if upto is None else upto
+        Tall = C["T"]
+        T = Tall if upto is None else upto
         for ci, i in enumerate(C["crossings"]):
-            t0 = i["start"]
-            while t0 < T:
-                t1 = min(C["T"], t0 + i["chunk"])
-                full = (t1 - t0) == i["chunk"]
-                hi = min(t1, T)
-                cnt = Counter(tuple(seq[f][t] for f in i["factors"]) for t in range(t0, hi))
-                for c, n in cnt.items():
-                    if c not in i["poss"]:
-                        return "crossing %d: combination %r is not allowed" % (ci, c)
-                    if n > i["poss"][c] * i["w"]:
-                        return "crossing %d: %r occurs %d times (cap %d)" % (ci, c, n, i["poss"][c] * i["w"])
-                if full and hi == t1:
-                    for c, w in i["poss"].items():
-                        if cnt.get(c, 0) != w * i["w"]:
-                            return "crossing %d: %r occurs %d times, expected %d" % (ci, c, cnt.get(c, 0), w * i["w"])
-                t0 = t1
+            s = i.get("sustain", 1)
+            fs = i["factors"]
+            if s > 1:
+                for t in range(i["start"], T):
+                    g0 = i["start"] + ((t - i["start"]) // s) * s
+                    if t != g0 and any(seq[f][t] != seq[f][g0] for f in fs):
+                        return "crossing %d: %r changes inside a group of %d trials (trial %d)" % (ci, fs, s, t)
+            tile = i.get("tile") or (Tall - i["start"])
+            base = i["start"]
+            while base < T:
+                tend = min(Tall, base + tile)
+                t0 = base
+                while t0 < min(tend, T):
+                    t1 = min(tend, t0 + i["chunk"] * s)
+                    full = (t1 - t0) == i["chunk"] * s
+                    hi = min(t1, T)
+                    cnt = Counter(tuple(seq[f][t] for f in fs) for t in range(t0, hi, s))
+                    for c, n in cnt.items():
+                        if c not in i["poss"]:
+                            return "crossing %d: combination %r is not allowed" % (ci, c)
+                        if n > i["poss"][c] * i["w"]:
+                            return "crossing %d: %r occurs %d times (cap %d)" % (ci, c, n, i["poss"][c] * i["w"])
+                    if full and hi == t1:
+                        for c, w in i["poss"].items():
+                            if cnt.get(c, 0) != w * i["w"]:
+                                return "crossing %d: %r occurs %d times, expected %d" % (ci, c, cnt.get(c, 0), w * i["w"])
+                    t0 = t1
+                base = tend
         return None
 
     def is_valid(self, seq):
